@@ -93,7 +93,7 @@ Definition s_step (s : sstate) (o : sop) : sstate * sres :=
         match assoc_get key (s_cache s) with
         | Some stamp => (s, RTpl stamp)
         | None =>
-            let '(s1, r) := fresh_tpl s (s_compile_file s key) in
+            let '(s1, r) := fresh_tpl s (s_compile_file s name) in
             match r with
             | RTpl stamp => (mkS (s_files s1) (s_created s1) (s_btags s1) (s_bfilters s1) ((key, stamp) :: s_cache s1)
                                  (s_debug s1) (s_stamp s1) (s_fetches s1), r)
